@@ -23,6 +23,7 @@
 //	    headers = - | khex=texthex,…   body = - | hex   assert=1: postprocessor assert/response body ["result":"ok"]
 //	    (the target answers "result":"bad" when the URI contains "nok": the step then fails after delivery)
 //	cfg <kindA> <kindB> <ninst> <mdA> <mdB>      (see cfg.go; in a subprocess)
+//	hshare <dec> <preload> <mws> <cfg> <file> <nammo> <ops>      (see share.go: requests held by several instances of one http provider)
 //	race <pool> <ninst> <nshots> <variant>
 //	    (run in a subprocess of the -race build) N instances of a pool kind under the real engine
 //	    against in-process targets; observation = clean | race:<functions> | fatal:<message>
@@ -358,6 +359,8 @@ func runCase(c string) (res string) {
 		return runRaceSub(c)
 	case "cfg":
 		return runSub("cfgcase", c)
+	case "hshare":
+		return runShare(f)
 	}
 	return "unknown-case"
 }
@@ -373,16 +376,16 @@ func main() {
 	}
 	vh.Main(gen, func(cases []string) []string {
 		out := make([]string, len(cases))
-		// the ammo cases (mock components only, seconds of deliberate stall) run beside the others
+		// the ammo and hshare cases (seconds of deliberate stall / waiting for the wall clock's next second) run beside the others
 		var wg sync.WaitGroup
 		for i, c := range cases {
-			if strings.HasPrefix(c, "ammo ") {
+			if strings.HasPrefix(c, "ammo ") || strings.HasPrefix(c, "hshare ") {
 				wg.Add(1)
 				go func(i int, c string) { defer wg.Done(); out[i] = runCase(c) }(i, c)
 			}
 		}
 		for i, c := range cases {
-			if !strings.HasPrefix(c, "ammo ") {
+			if !strings.HasPrefix(c, "ammo ") && !strings.HasPrefix(c, "hshare ") {
 				out[i] = runCase(c)
 			}
 		}
